@@ -1363,10 +1363,14 @@ class ValueObject(Value):
             args_ = Args(None)
             args_.addArgs(fn.getArgNames())
             args_.setArgs([None], [self])
+            env = getattr(fn, "lexicalEnv", None)
+            if env is None:
+                # a built-in function is not tied to an environment: the
+                # names it looks up while rendering are not defined
+                from ckl.functions import Environment
+                env = Environment()
             try:
-                return fn.execute(
-                    args_, getattr(fn, "lexicalEnv", None), None
-                ).asString().value
+                return fn.execute(args_, env, None).asString().value
             except CklRuntimeError as e:
                 e.stacktrace.append("_str_")
                 raise
